@@ -166,8 +166,97 @@ def hist_key(seq):
     return ",".join(str(int(x)) for x in seq)
 
 
-def make_lm(V, tables, default, eos=None, shared=False, dtype=None, layout=None):
-    """`dtype`/`layout`: dtype and memory layout of the rows the model returns. The initial state
+LM_MUTATE = (None, "keys", "dict", "tensor", "all")
+
+JUNK_KINDS = ("ninf_row", "ninf_one", "pinf", "nan", "nan_row", "mixed")
+
+
+def junk_row(kind, V, k=0):
+    """A row of `V` scores holding non-finite garbage (for a region the property says is
+    ignored): every class -inf (a fully masked frame), one -inf, one +inf, one NaN, all NaN, or a
+    mixture; the other entries are finite. `k` selects the position."""
+    ninf, pinf, nan = float("-inf"), float("inf"), float("nan")
+    row = [0.25 * (i + 1) for i in range(V)]
+    if kind == "ninf_row":
+        return [ninf] * V
+    if kind == "nan_row":
+        return [nan] * V
+    if kind == "mixed":
+        return [(ninf, pinf, nan)[(i + k) % 3] for i in range(V)]
+    row[k % V] = {"ninf_one": ninf, "pinf": pinf, "nan": nan}[kind]
+    return row
+
+
+def put_junk(t, where, kinds):
+    """Overwrite the rows (last dimension) of the float tensor `t` selected by the boolean
+    nested list/tensor `where` with garbage of the kind named at the same position in `kinds`
+    (nested list of None / kind name). Returns a new tensor; `t` is left alone."""
+    import torch
+    t = t.clone()
+    V = t.size(-1)
+    flat = t.view(-1, V)
+    w = torch.as_tensor(where, dtype=torch.bool).reshape(-1)
+    ks = flat_list(kinds)
+    for i in range(flat.size(0)):
+        if bool(w[i]) and ks[i] is not None:
+            flat[i] = torch.tensor(junk_row(ks[i], V, i), dtype=t.dtype)
+    return t
+
+
+def flat_list(x):
+    out = []
+
+    def rec(y):
+        if isinstance(y, list):
+            for z in y:
+                rec(z)
+        else:
+            out.append(y)
+    rec(x)
+    return out
+
+
+def same_tensor(a, b):
+    """torch.equal with NaN == NaN (inputs may hold non-finite garbage)"""
+    import torch
+    if a.shape != b.shape or a.dtype != b.dtype:
+        return False
+    if not a.is_floating_point():
+        return bool(torch.equal(a, b))
+    return bool(torch.equal(a.nan_to_num(12345.0, 23456.0, -34567.0), b.nan_to_num(12345.0, 23456.0, -34567.0)))
+
+
+def state_snapshot(d):
+    """what a caller can see of a state dictionary: its keys and the values of its tensors"""
+    return {k: (v.dtype, tuple(v.shape), v.clone()) for k, v in d.items()}
+
+
+def state_changes(d, snap):
+    """-> list of differences between the dictionary `d` now and its snapshot"""
+    import torch
+    out = []
+    for k in d:
+        if k not in snap:
+            out.append(f"key {k!r} added")
+    for k, (dt, sh, val) in snap.items():
+        if k not in d:
+            out.append(f"key {k!r} removed")
+        elif d[k].dtype != dt or tuple(d[k].shape) != sh or not torch.equal(d[k], val):
+            out.append(f"tensor {k!r} changed from {val.tolist()} to {d[k].tolist()}")
+    return out
+
+
+def make_lm(V, tables, default, eos=None, shared=False, dtype=None, layout=None, mutate=None,
+            default_junk=None):
+    """`mutate`: how the model treats the state dictionary it is handed (all are legitimate
+    language models; the library's own ones build new dictionaries): None = builds new
+    dictionaries, "keys" = `update_input` adds its keys to the dictionary it is given, "dict" =
+    additionally `calc_idx_log_probs` stores the updated state under the same keys of the
+    dictionary it is given and returns that dictionary, "tensor" = new dictionary in
+    `update_input`, afterwards the state tensors are updated in place, "all" = keys added in
+    place and tensors updated in place. `default_junk`: the rows returned for histories that
+    already ended (contain `eos`) hold non-finite garbage of that kind instead of `default`.
+    `dtype`/`layout`: dtype and memory layout of the rows the model returns. The initial state
     may carry `sel` (long tensor of K table indices): batch element `n` then answers from
     `tables[sel[n % K]]` - a language model conditioned on a batched input.
     tables: per batch element a dict hist_key -> list of V 'n/d' (raw LM outputs); default: list
@@ -190,7 +279,8 @@ def make_lm(V, tables, default, eos=None, shared=False, dtype=None, layout=None)
         def update_input(self, prev, hist):
             if "state" in prev:
                 return prev
-            prev = dict(prev)
+            if mutate not in ("keys", "dict", "all"):
+                prev = dict(prev)
             prev["state"] = torch.zeros(hist.size(1), dtype=torch.long)
             prev["at"] = torch.full((hist.size(1),), -1, dtype=torch.long)
             return prev
@@ -208,7 +298,10 @@ def make_lm(V, tables, default, eos=None, shared=False, dtype=None, layout=None)
                 col = [int(x) for x in hist[:idx_, n].tolist()]
                 if eos is not None and eos in col:
                     at[n] = idx_
-                    out.append([float(Fraction(x)) for x in default])
+                    if default_junk is not None:
+                        out.append(junk_row(default_junk, V, n + idx_))
+                    else:
+                        out.append([float(Fraction(x)) for x in default])
                     continue
                 # state handed in must describe hist[:idx-1] (or be the fresh state at idx 0)
                 exp_prev = 0
@@ -220,7 +313,10 @@ def make_lm(V, tables, default, eos=None, shared=False, dtype=None, layout=None)
                     ok = int(at[n]) == idx_ - 1 and int(state[n]) == exp_prev
                 if not ok:
                     raise StateThreadingError(
-                        f"element {n}: asked for idx {idx_} with state at {int(at[n])}")
+                        f"element {n}: the language model is asked for idx {idx_} with a state "
+                        f"dictionary that describes idx {int(at[n])} (state {int(state[n])}, "
+                        f"expected {exp_prev if idx_ else 0}); at idx 0 it must be handed the "
+                        f"initial state")
                 if idx_ > 0:
                     state[n] = roll(exp_prev, col[-1])
                 at[n] = idx_
@@ -232,9 +328,18 @@ def make_lm(V, tables, default, eos=None, shared=False, dtype=None, layout=None)
                     tab = tables[0] if shared else (tables[n] if n < len(tables) else {})
                 row = tab.get(hist_key(col), default)
                 out.append([float(Fraction(x)) for x in row])
-            nxt = dict(prev)
-            nxt["state"] = state
-            nxt["at"] = at
+            if mutate in ("tensor", "all"):
+                prev["state"].copy_(state)
+                prev["at"].copy_(at)
+                nxt = prev
+            elif mutate == "dict":
+                prev["state"] = state
+                prev["at"] = at
+                nxt = prev
+            else:
+                nxt = dict(prev)
+                nxt["state"] = state
+                nxt["at"] = at
             rows = torch.tensor(out, dtype=torch_dtype(dtype)).view(N, V)
             return relayout(rows, layout), nxt
 
